@@ -200,10 +200,17 @@ func (r *renderer) emit(depth int, s string) {
 			s += " // 行尾注释"
 		case 1:
 			s += " 注：行尾"
+			if r.l.Rng.Intn(3) == 0 {
+				s = strings.TrimSuffix(s, "行尾") // an annotation with nothing after the colon
+			}
 		case 2:
 			s += " /* 块 */"
 		case 3:
-			r.push(strings.Repeat(r.l.indent(), depth) + "注12：整行注释")
+			if r.l.Rng.Intn(3) == 0 {
+				r.push(strings.Repeat(r.l.indent(), depth) + []string{"注：", "注7：", "//", "/**/"}[r.l.Rng.Intn(4)])
+			} else {
+				r.push(strings.Repeat(r.l.indent(), depth) + "注12：整行注释")
+			}
 		}
 	}
 	if r.l.BlankLines && r.l.coin() && r.l.Rng.Intn(5) == 0 {
